@@ -303,8 +303,10 @@ fn set_cache(context: &mut SearchContext, search_node: SearchNode, score: i16) {
     #[cfg(feature = "verif-hooks")]
     crate::verif_hooks::emit(crate::verif_hooks::Event::BeforeCacheStore {
         key: search_node.0,
-        alpha: search_node.1,
-        beta: search_node.2,
+        depth: search_node.1,
+        maximizing: search_node.2,
+        alpha: search_node.3,
+        beta: search_node.4,
         score,
     });
     let mut cache = context.search_result_cache.write().unwrap();
@@ -315,8 +317,10 @@ fn check_cache(context: &mut SearchContext, search_node: SearchNode) -> Option<i
     #[cfg(feature = "verif-hooks")]
     crate::verif_hooks::emit(crate::verif_hooks::Event::BeforeCacheRead {
         key: search_node.0,
-        alpha: search_node.1,
-        beta: search_node.2,
+        depth: search_node.1,
+        maximizing: search_node.2,
+        alpha: search_node.3,
+        beta: search_node.4,
     });
     let cache = context.search_result_cache.read().unwrap();
     match cache.get(&search_node) {
